@@ -54,6 +54,17 @@ def gen_instances(ctx, seed, count, rooms_mode=2, max_c=6, max_p=9):
     flat = [c for blk in codes for c in blk]
     for m, c in zip(metas, flat):
         m["lib_code"] = c
+    # the files written by io::simple::write_input_data read back (reader model) as the instances: CorrCliFile.check_inst_file
+    import cde
+    texts = ["(%s, %s, %s)" % (m["g_courses"], m["g_parts"], cde.coq(json.load(open(m["file"], encoding="utf-8")))) for m in metas]
+    p = os.path.join(d, "cases_clifile_00.v")
+    with open(p, "w", encoding="utf-8") as f:
+        f.write("From Coq Require Import List NArith ZArith String.\nImport ListNotations.\nRequire Import Json CorrNode CorrCliFile.\n"
+                "Open Scope string_scope.\nOpen Scope list_scope.\n")
+        f.write("Definition cases : list inst_file_case := [\n  " + ";\n  ".join(texts) + "\n].\nEval vm_compute in map check_inst_file cases.\n")
+    fc = [c for blk in vlib.coqc_cases(p) for c in blk]
+    for m, c in zip(metas, fc):
+        m["file_code"] = c
     return d, metas
 
 
